@@ -235,6 +235,11 @@ class C11Spec(Spec):
             # one-byte chunks: an entry becomes hundreds of messages (tens of KiB on the wire, re-sent on every
             # heartbeat); a 300-byte socket moves one buffer per tick in this engine and never catches up
             cfg['cap'] = max(cfg['cap'], 1 << 12)
+        # one message of the biggest planned size has to cross the link well within an election time-out (the schedule
+        # moves one socket capacity per 10 ms round): behind a 300-byte socket a 64 KiB entry blocks the heartbeats for
+        # seconds, the follower campaigns and nothing ever completes - bandwidth is a premise here, not the subject
+        biggest = max([sz for _, sz in plan] + [0]) + 1000
+        cfg['cap'] = max(cfg['cap'], min(1 << 20, biggest // 10))
         cfg['plan'] = plan
         s['dlv_sizes'] = rng.choice([[0], [0, 0, 0, 64, 1000], [0, 0, 1, 7, 300]])
         s['steps'] = 1 << 30
